@@ -156,6 +156,7 @@ fn sql_ty(t: Ty) -> &'static str {
         Ty::BigInt => "BIGINT",
         Ty::Bool => "BOOLEAN",
         Ty::Text => "TEXT",
+        Ty::Double => "DOUBLE",
     }
 }
 
@@ -180,6 +181,12 @@ fn leaves(f: &From, db: &[Table], out: &mut Vec<(usize, usize)>, width: &mut usi
             leaves(l, db, out, width);
             leaves(r, db, out, width);
         }
+        // a derived table written in the case itself (engine `sql` generates them; this engine's generator does not):
+        // one opaque leaf
+        From::Derived(_, _, items) => {
+            out.push((super::sql::DERIVED_LEAF, *width));
+            *width += items.len();
+        }
     }
 }
 
@@ -191,8 +198,7 @@ fn leaves_of(f: &From, db: &[Table]) -> (Vec<(usize, usize)>, usize) {
 }
 
 fn from_tys(f: &From, db: &[Table]) -> Vec<Ty> {
-    let (ls, _) = leaves_of(f, db);
-    ls.iter().flat_map(|(t, _)| db.get(*t).map(|t| t.tys.clone()).unwrap_or_default()).collect()
+    super::sql::from_tys(f, db)
 }
 
 #[derive(Clone, Copy, PartialEq, Eq, Debug)]
@@ -258,8 +264,8 @@ fn expr_cols(e: &E, out: &mut Vec<usize>) {
     match e {
         E::Lit(_) => {}
         E::Col(i) => out.push(*i),
-        E::Not(a) | E::Neg(a) | E::Pos(a) | E::IsNull(_, a) => expr_cols(a, out),
-        E::And(a, b) | E::Or(a, b) | E::Cmp(_, a, b) | E::Arith(_, a, b) | E::Like(_, a, b) => {
+        E::Not(a) | E::Neg(a) | E::Pos(a) | E::IsNull(_, a) | E::StrFn(_, a) => expr_cols(a, out),
+        E::And(a, b) | E::Or(a, b) | E::Cmp(_, a, b) | E::Arith(_, a, b) | E::Like(_, a, b) | E::Concat(a, b) => {
             expr_cols(a, out);
             expr_cols(b, out)
         }
@@ -272,6 +278,18 @@ fn expr_cols(e: &E, out: &mut Vec<usize>) {
             expr_cols(a, out);
             for x in xs {
                 expr_cols(x, out)
+            }
+        }
+        E::Case(x, arms, els) => {
+            if let Some(x) = x {
+                expr_cols(x, out)
+            }
+            for (c, r) in arms {
+                expr_cols(c, out);
+                expr_cols(r, out)
+            }
+            if let Some(e) = els {
+                expr_cols(e, out)
             }
         }
     }
@@ -299,20 +317,26 @@ fn left_deep(f: &From) -> Option<(usize, Vec<(&'static str, Option<E>)>)> {
             js.push((*k, on.clone()));
             Some((t, js))
         }
+        From::Derived(..) => None,
     }
 }
 
 /// FROM clause as written
-fn sql_from_plain(f: &From, next: &mut usize, col: &dyn Fn(usize) -> String) -> String {
+fn sql_from_plain(f: &From, db: &[Table], next: &mut usize, col: &dyn Fn(usize) -> String) -> String {
     match f {
         From::Table(t) => {
             let s = format!("t{} AS r{}", t, *next);
             *next += 1;
             s
         }
+        From::Derived(inner, w, items) => {
+            let s = super::sql::sql_derived(inner, w, items, *next, db);
+            *next += 1;
+            s
+        }
         From::Join(k, l, r, on) => {
-            let ls = sql_from_plain(l, next, col);
-            let rs = sql_from_plain(r, next, col);
+            let ls = sql_from_plain(l, db, next, col);
+            let rs = sql_from_plain(r, db, next, col);
             match on {
                 Some(e) => format!("{} {} {} ON {}", ls, join_kw(k), rs, sql_expr(e, 1, col)),
                 None => format!("{} {} {}", ls, join_kw(k), rs),
@@ -454,6 +478,7 @@ fn sql_from_derived(
         _ => {
             fn go(
                 f: &From,
+                db: &[Table],
                 next: &mut usize,
                 derived: &mut dyn FnMut(usize, usize, Option<String>) -> String,
                 col: &dyn Fn(usize) -> String,
@@ -464,9 +489,14 @@ fn sql_from_derived(
                         *next += 1;
                         s
                     }
+                    From::Derived(inner, w, items) => {
+                        let s = super::sql::sql_derived(inner, w, items, *next, db);
+                        *next += 1;
+                        s
+                    }
                     From::Join(k, l, r, on) => {
-                        let ls = go(l, next, derived, col);
-                        let rs = go(r, next, derived, col);
+                        let ls = go(l, db, next, derived, col);
+                        let rs = go(r, db, next, derived, col);
                         match on {
                             Some(e) => format!("{} {} {} ON {}", ls, join_kw(k), rs, sql_expr(e, 1, col)),
                             None => format!("{} {} {}", ls, join_kw(k), rs),
@@ -475,7 +505,7 @@ fn sql_from_derived(
                 }
             }
             let mut next = 0;
-            (go(f, &mut next, &mut derived, col), None)
+            (go(f, db, &mut next, &mut derived, col), None)
         }
     }
 }
@@ -504,7 +534,7 @@ pub fn select_sql(q: &Select, db: &[Table], ixs: &[Ix], v: Variant) -> Option<St
         }
         _ => {
             let mut next = 0;
-            (sql_from_plain(&q.from, &mut next, &col), vec![])
+            (sql_from_plain(&q.from, db, &mut next, &col), vec![])
         }
     };
     let out_exprs: Vec<String>;
@@ -1212,6 +1242,8 @@ fn to_vexpr(e: &E) -> vp::VExpr {
         E::IsNull(n, a) => vp::VExpr::IsNull(*n, b(a)),
         E::Between(n, a, lo, hi) => vp::VExpr::Between(*n, b(a), b(lo), b(hi)),
         E::InList(n, a, xs) => vp::VExpr::InList(*n, b(a), xs.iter().map(to_vexpr).collect()),
+        // CASE and the string functions are not part of the rule facade; the plan generators never produce them
+        E::Case(..) | E::StrFn(..) | E::Concat(..) => vp::VExpr::Lit(vp::VLit::Null),
     }
 }
 
@@ -1478,6 +1510,8 @@ impl<'a> RG<'a> {
             }
             Ty::Bool => E::Lit(Val::Bool(self.rng.chance(1, 2))),
             Ty::Text => E::Lit(Val::Text(self.rng.pick(&TEXTS).as_bytes().to_vec())),
+            // (the generators of this engine build no DOUBLE columns)
+            Ty::Double => E::Lit(Val::Null),
         }
     }
 
@@ -1646,6 +1680,7 @@ fn gen_rule_case_once(rng: &mut Rng) -> Option<Case> {
                         Ty::BigInt => 'B',
                         Ty::Bool => 'O',
                         Ty::Text => 'S',
+                        Ty::Double => 'D',
                     };
                     if *nn { ch.to_ascii_lowercase() } else { ch }
                 })
@@ -1668,7 +1703,8 @@ fn gen_rule_case_once(rng: &mut Rng) -> Option<Case> {
                             Ty::Int => vp::VTy::Int,
                             Ty::BigInt => vp::VTy::BigInt,
                             Ty::Bool => vp::VTy::Bool,
-                            Ty::Text => vp::VTy::Text,
+                            // (no DOUBLE columns in rule cases)
+                            Ty::Text | Ty::Double => vp::VTy::Text,
                         },
                         *nn,
                     )
@@ -1821,6 +1857,7 @@ impl<'a> G<'a> {
             }
             Ty::Bool => Val::Bool(self.rng.chance(1, 2)),
             Ty::Text => Val::Text(self.rng.pick(&TEXTS).as_bytes().to_vec()),
+            Ty::Double => Val::Null,
         }
     }
 
@@ -2278,6 +2315,7 @@ impl<'a> G<'a> {
             order_by: vec![],
             limit: None,
             offset: None,
+            having: None,
         }))
     }
 
@@ -2750,7 +2788,7 @@ impl<'a> G<'a> {
                 self.tag("where.indexable");
             }
         }
-        let mut q = Select { distinct: false, from, where_, group_by: vec![], aggs: vec![], items: None, order_by: vec![], limit: None, offset: None };
+        let mut q = Select { distinct: false, from, where_, group_by: vec![], aggs: vec![], items: None, order_by: vec![], limit: None, offset: None, having: None };
         let kind = self.rng.below(10);
         if kind < 2 {
             self.tag("q.agg");
